@@ -247,6 +247,17 @@ func (c06) Gen(r *sim.Rand, tier string, run uint64) *sim.Scenario {
 		sc.Cfg["bankend"] = 1
 	} else if set, base := genBase(r, total+8); set {
 		ops = append([]sim.Op{{K: "setbase", N: []int64{int64(base)}}}, ops...)
+		if r.Chance(1, 10) {
+			// a label defined ahead of SetBase (it stays where it was defined, at $000000) and a
+			// jump that refers to it
+			l := newLabel()
+			at := 1 + r.Intn(len(ops))
+			jmp := sim.Op{K: "ref", S: "JMP_abs", N: []int64{l}}
+			ops = append(ops[:at], append([]sim.Op{jmp}, ops[at:]...)...)
+			total += opSize(jmp)
+			ops = append([]sim.Op{{K: "label", N: []int64{l}}}, ops...)
+			ops = append(ops, sim.Op{K: "finalize"})
+		}
 	}
 	sc.Cfg["cap"] = int64(total + 16)
 	if r.Chance(1, 5) && total > 0 {
